@@ -323,6 +323,18 @@ impl FieldParser {
         let mut fields = vec![];
         let mut remaining = i;
 
+        // Smallest number of bytes a record of this template can occupy; a variable
+        // length field needs at least its one byte length prefix. Anything shorter
+        // left at the end of the set is padding (RFC 7011 3.3.1).
+        let min_record_len = template
+            .get_fields()
+            .iter()
+            .map(|f| match f.field_length {
+                65535 => 1,
+                length => usize::from(length),
+            })
+            .sum::<usize>();
+
         // One iteration per record (a loop, so that the number of records in a set
         // is not limited by the stack).
         loop {
@@ -338,7 +350,7 @@ impl FieldParser {
             }
 
             // A record that consumed nothing would repeat forever.
-            if total_taken == 0 || remaining.len() < total_taken {
+            if total_taken == 0 || remaining.len() < min_record_len {
                 break;
             }
         }
